@@ -513,14 +513,14 @@ C16 = dict(
     flags={"C16": {"notlinearizable", "panic", "race"}},
     distinct=lambda s: s.get("ops", 0),
     rule="histories = real concurrent runs of 2-4 goroutines x 2-5 operations (insert, delete, lookup, iterate, GetChanges, "
-         "SaveChanges to a second store) on one trie, overlapping and disjoint key sets, seeded Gosched/sleep perturbation, race "
+         "SaveChanges to a fresh store) on one trie, overlapping and disjoint key sets, seeded Gosched/sleep perturbation, race "
          "detector on; call/return records ordered by one atomic counter; TLC searches for a linearization (MPTConc.tla) and checks "
          "final content and canonical shape; extra race-only runs with a node removed from the store so that readers hit missing "
          "nodes; distinct_nontrivial = number of completed operations judged",
     summary_keys=["ops", "panics", "distinct_shapes"],
     ops_of=lambda ev: ev,
     assumptions=["the Go race detector decides the 'no data race' clause",
-                 "GetChanges/SaveChanges are judged only for absence of panics/errors and races",
+                 "GetChanges/SaveChanges are snapshot reads: the change set over the nodes that existed before the run must be a complete trie without foreign nodes holding the content of the linearization point; an empty saved set is not judged",
                  "a rejected history stops the validation of the remaining histories in the same shard"],
 )
 
@@ -610,15 +610,20 @@ def _wpath_ops(events):
 WPATH = dict(
     name="wpath", component="wpath", trace_module="WMPTPathTrace", trace_cfg="WMPTPathTrace.cfg",
     design={"quick": [("WMPT_MC", "WMPT_MC.cfg")], "thorough": [("WMPT_MC", "WMPT_MC.cfg")]},
-    gen={"quick": [dict(module="WMPTPath", cfg="WMPTPath.cfg", workers=8)],
-         "thorough": [dict(module="WMPTPath", cfg="WMPTPath_big.cfg", workers=12, timeout=3000)]},
+    gen={"quick": [dict(module="WMPTPath", cfg="WMPTPath.cfg", workers=8),
+                   dict(module="WMPTPath", cfg="WMPTPath_shape.cfg", workers=8)],
+         "thorough": [dict(module="WMPTPath", cfg="WMPTPath_big.cfg", workers=12, timeout=3000),
+                      dict(module="WMPTPath", cfg="WMPTPath_shape_big.cfg", workers=12, timeout=3000)]},
     exec_args=lambda tier, seed: (["-n", 1500] if tier == "quick" else ["-n", 40000]),
     flags={"C12": {"export", "importroot", "importweight", "mirrorres", "mirrorroot", "mirrorweight", "fullres", "fullweight",
                    "rootfn", "finalroot", "unknown-op"}},
     distinct=lambda s: s.get("distinct_signatures", 0),
     rule="scenarios = (a) every (source content over 3 keys, collapse level in-memory/0/1, requested set incl. an absent key and an "
          "optional block of 11 absent filler keys (> 10 requested keys), <=2 mirrored updates/deletes of requested keys) emitted by "
-         "TLC from WMPTPath.tla (19200 quick); (b) seeded random scenarios over ten 32-byte keys (root a branch, a shared-prefix node, "
+         "TLC from WMPTPath.tla (19200 quick) plus the structural scope WMPTPath_shape.cfg (every content of <=3 of the 8 keys 0xxx of a "
+         "4-nibble 0/1 window, <=1 requested key incl. an absent one, in memory / Commit(1) / committed and re-opened, <=2 mirrored "
+         "operations; each executed with the window at the head and at the tail of the key: all local shapes incl. one-nibble "
+         "extensions and leaf rests of 0/1/2 nibbles); (b) seeded random scenarios over ten 32-byte keys (root a branch, a shared-prefix node, "
          "a single entry or empty), 0..14 requested keys, collapse levels -1/0/1/2/3/64, up to 7 mirrored operations; "
          "distinct_nontrivial = distinct (content size, level, request size, operation kinds) signatures",
     summary_keys=["import_errors", "panics", "go_histories"],
